@@ -105,6 +105,15 @@ def cases(draw, exclude: frozenset = frozenset()):
 		if not ({outer_new, inner_new} & (set(names) | set(r.values()))):
 			r[f'C{inner.group(2)}'] = outer_new
 			r[inner.group(1)] = inner_new
+	# two members of one enum get names in suffix relation (M0 -> X, M1 -> AX): a lookup of a member among its siblings must be by the whole name
+	members = re.findall(r'(?m)^\t(M\d+) = ', prog['source'])
+	if len(members) >= 2 and rnd.random() < 0.5:
+		short, long_ = rnd.choice([('X', 'AX'), ('red', 'dark_red'), ('k9', 'kk9'), ('Q', 'Q_Q')])
+		if not ({short, long_} & (set(names) | set(r.values()))):
+			first, second = rnd.sample(sorted(set(members)), 2) if len(set(members)) >= 2 else (members[0], members[0])
+			if first != second:
+				lo, hi = sorted([first, second], key=lambda m: int(m[1:]))
+				r[lo], r[hi] = short, long_   # the earlier declared member gets the suffix
 	return {'source': prog['source'], 'r': r, 'tags': prog['tags']}
 
 
